@@ -5,5 +5,6 @@ CONSTANTS
   VMag = 2
   Mixed = FALSE
   Dump = FALSE
+INVARIANT NoUB
 INVARIANT ImplAgrees
 CHECK_DEADLOCK FALSE
